@@ -39,6 +39,7 @@ def is_heap(a):
 
 def load(reg):
     C01 = ["C01"]
+    C01_C02 = ["C01", "C02"]     # the simulator's exactly-once / ordering property rests on these operations
     reg.declare_fields("SimEvent", _absolute_time="xreal", _priority="int", _id="int", _target="obj",
                        _method="obj", _kwargs="obj")
     reg.declare_fields("EventListHeap", _event_list="seq[%s]" % ENT_S)
@@ -197,13 +198,13 @@ def heap_root_min(a, i):
                  ensures=["WF(self)", "len(%s) == len(%s) + 1" % (L, L0),
                           "forall('e:%s', iff(contains(%s, e), contains(%s, e) or e == ENTRY(event)))" % (ENT_S, L, L0)],
                  labels={"WF(self)": "WF"},
-                 modifies=["self._event_list"], props=C01, axiom_sets=AX)
+                 modifies=["self._event_list"], props=C01_C02, axiom_sets=AX)
     reg.contract("EventListHeap.peek_first", params={}, returns="ref:SimEvent?",
                  requires=["WF(self)"],
                  ensures=["iff(result is None, len(%s) == 0)" % L,
                           # the event handed out is the minimum of all pending entries
                           "implies(len(%s) > 0, result == %s[0][3] and contains(%s, %s[0]) and ROOT_MIN(%s))" % (L, L, L, L, L)],
-                 pure=True, props=C01, axiom_sets=AX)
+                 pure=True, props=C01_C02, axiom_sets=AX)
     reg.contract("EventListHeap.pop_first", params={}, returns="ref:SimEvent?",
                  requires=["WF(self)"],
                  ensures=["WF(self)", "iff(result is None, len(%s) == 0)" % L0,
@@ -214,7 +215,7 @@ def heap_root_min(a, i):
                           " and forall('e:%s', iff(contains(%s, e), contains(%s, e) and e != %s[0])))"
                           % (L0, L0, L0, L0, ENT_S, L0, L0, L, L0, ENT_S, L, L0, L0)],
                  labels={"WF(self)": "WF"},
-                 modifies=["self._event_list"], props=C01, axiom_sets=AX)
+                 modifies=["self._event_list"], props=C01_C02, axiom_sets=AX)
     reg.contract("EventListHeap.contains", params={"event": "ref:SimEvent"}, returns="bool",
                  requires=["WF(self)", "VALID_EVENT(event)"],
                  ensures=["result == contains(%s, ENTRY(event))" % L], pure=True, props=C01, axiom_sets=AX)
@@ -225,7 +226,7 @@ def heap_root_min(a, i):
                           # whole view: exactly that entry leaves, every other entry stays
                           "forall('e:%s', iff(contains(%s, e), contains(%s, e) and e != ENTRY(event)))" % (ENT_S, L, L0)],
                  labels={"WF(self)": "WF"},
-                 modifies=["self._event_list"], props=C01, axiom_sets=AX)
+                 modifies=["self._event_list"], props=C01_C02, axiom_sets=AX)
     reg.contract("EventListHeap.clear", params={}, ensures=["WF(self)", "len(%s) == 0" % L],
                  modifies=["self._event_list"], props=C01, axiom_sets=AX)
 
